@@ -1027,7 +1027,7 @@ def hfs_legs(prop, tier, seed):
     elif prop == "C02":
         S.append(("honest", dict(PatSet=SUB8 if q else INTER, PskMode="single", PubLens=[32] if q else [32, 65],
                                  Profiles=["zero", "max"] if q else ["zero", "small", "mid", "kilo", "max"],
-                                 BufModes=["exact"] if q else ["big", "exact"]), 1 if q else 2, "default"))
+                                 BufModes=["exact"] if q else ["big", "exact"]), 2, "default"))
     elif prop == "C03":
         S.append(("tamper", dict(PatSet=INTER, PskMode="none" if q else "single", PubLens=[32], Variants=["tr"], TamperBudget=1,
                                  TrafficMode="short"), 1, "default"))
@@ -1043,6 +1043,10 @@ def hfs_legs(prop, tier, seed):
     elif prop == "C10":
         S.append(("faults", dict(PatSet=["NN", "XX", "IK"] if q else INTER, FaultBudget=1, PubLens=[32] if q else [32, 65],
                                  InitPads=[False], Variants=["tr"], TrafficMode="short"), 1 if q else 2, "default"))
+    elif prop == "C12":
+        # a successfully built pair never fails later for missing key material: psk-bearing hfs names, both modifier orders
+        S.append(("pairs", dict(PatSet=["NN", "XX", "IK", "NK", "X1X1"] if q else INTER, PskMode="only", PubLens=[32],
+                                InitPads=[False], Variants=["tr"], TrafficMode="short"), 2, "default"))
     elif prop == "C14":
         S.append(("lengths", dict(PatSet=SUB8 if q else INTER, PskMode="single", PubLens=[32], Profiles=["zero", "max"],
                                   BufModes=["exact"], Variants=["tr"], TrafficMode="short"), 1, "default"))
